@@ -20,6 +20,19 @@ a `Number` is the decimal `mant · 10^exp` (all digits before and after the poin
 the number of digits after the point); which REAL the decimal becomes (the nearest one, `DecFloat.decToF64`) is said in
 `Lemmas/FloatGrammar.lean`, where `DecFloat.parseF64N` — the function the model executes for every number text —
 is proved sound and complete for this grammar.
+
+THE EXPONENT (observation N3 of DESIGN.md). The documentation says nothing about the size of the exponent; the
+implementation (`dec2flt::parse::parse_scientific`, and `decimal_seq::parse_decimal_seq` on the slow path) accumulates
+the exponent digits with `if exponent < 0x10000 { exponent = 10 * exponent + digit }`: once the accumulated magnitude
+has reached 65 536 the remaining exponent digits are read and ignored (`1e655360` has the exponent 65 536). The grammar
+is therefore stated over a parameter `val`, the reading of the exponent digits:
+* `FloatD  = FloatDV digitsVal`  — the documented grammar with the mathematical value of the exponent digits;
+* `FloatR  = FloatDV rustExpVal` — what Rust computes (`rustExpVal` = the capped accumulation).
+Both derive the same texts (`Lemmas/FloatGrammar.lean` `floatR_iff_floatD_text`); they give a text the same denotation
+when the exponent digits' value is below 65 536 (`ExpSmall`, decidable on the text; `floatR_iff_floatD`). The model's
+function is proved sound and complete for `FloatR` unconditionally and for `FloatD` under `ExpSmall`. The difference is
+observable only when the mantissa has ≈ 65 000 digits or more: `0.` + 65 299 zeros + `1e655360` is 1e590060 (REAL: inf),
+Rust answers 1e236.
 -/
 namespace Sqlgrep.FloatGrammar
 open Sqlgrep.JsonGrammar (Digit Digits Digits1 digitsVal)
@@ -30,19 +43,31 @@ inductive SignD : List Char → Bool → Prop
   | plus : SignD ['+'] false
   | minus : SignD ['-'] true
 
-/-- `Exp?` = `( 'e' Sign? Digit+ )?` with the exponent it denotes (absent: 0); `e` in either case -/
-inductive ExpD : List Char → Int → Prop
-  | none : ExpD [] 0
+/-- the exponent digits as Rust accumulates them (`if exponent < 0x10000 { exponent = 10 * exponent + digit }`, most
+significant digit first): their value when it is below 65 536, else the first prefix value at or above 65 536 -/
+def rustExpVal (ds : List Char) : Nat := ds.foldl (fun n c => if n < 65536 then 10 * n + (c.toNat - 0x30) else n) 0
+
+/-- `Exp?` = `( 'e' Sign? Digit+ )?` with the exponent it denotes (absent: 0); `e` in either case; `val` reads the
+exponent digits -/
+inductive ExpDV (val : List Char → Nat) : List Char → Int → Prop
+  | none : ExpDV val [] 0
   | some {e : Char} {sg ds : List Char} {neg : Bool} : (e = 'e' ∨ e = 'E') → SignD sg neg → Digits1 ds →
-      ExpD (e :: sg ++ ds) (if neg then -(digitsVal ds : Int) else (digitsVal ds : Int))
+      ExpDV val (e :: sg ++ ds) (if neg then -(val ds : Int) else (val ds : Int))
 
 /-- `Number ::= ( Digit+ | Digit+ '.' Digit* | Digit* '.' Digit+ ) Exp?` denoting `mant · 10^exp` -/
-inductive NumberD : List Char → Nat → Int → Prop
+inductive NumberDV (val : List Char → Nat) : List Char → Nat → Int → Prop
   /-- `Digit+ Exp?` -/
-  | int {ip e : List Char} {ev : Int} : Digits1 ip → ExpD e ev → NumberD (ip ++ e) (digitsVal ip) ev
+  | int {ip e : List Char} {ev : Int} : Digits1 ip → ExpDV val e ev → NumberDV val (ip ++ e) (digitsVal ip) ev
   /-- `Digit+ '.' Digit* Exp?` and `Digit* '.' Digit+ Exp?`: a digit on at least one side of the point -/
-  | point {ip fp e : List Char} {ev : Int} : Digits ip → Digits fp → (ip ≠ [] ∨ fp ≠ []) → ExpD e ev →
-      NumberD (ip ++ '.' :: fp ++ e) (digitsVal (ip ++ fp)) (ev - fp.length)
+  | point {ip fp e : List Char} {ev : Int} : Digits ip → Digits fp → (ip ≠ [] ∨ fp ≠ []) → ExpDV val e ev →
+      NumberDV val (ip ++ '.' :: fp ++ e) (digitsVal (ip ++ fp)) (ev - fp.length)
+
+/-- the documented grammar: the exponent digits by their mathematical value -/
+abbrev ExpD := ExpDV digitsVal
+abbrev NumberD := NumberDV digitsVal
+/-- Rust's reading: the exponent digits accumulated with the cap -/
+abbrev ExpR := ExpDV rustExpVal
+abbrev NumberR := NumberDV rustExpVal
 
 /-- one ASCII letter in either case: `c` is the lower-case letter `l` or the upper-case letter 32 code points below -/
 def LetterCI (l c : Char) : Prop := c.toNat = l.toNat ∨ c.toNat + 32 = l.toNat
@@ -61,12 +86,35 @@ inductive FVal where
   deriving DecidableEq, Repr
 
 /-- `Float ::= Sign? ( 'inf' | 'infinity' | 'nan' | Number )` -/
-inductive FloatD : List Char → FVal → Prop
-  | number {sg body : List Char} {neg : Bool} {m : Nat} {e : Int} : SignD sg neg → NumberD body m e →
-      FloatD (sg ++ body) (.dec neg m e)
-  | inf {sg w : List Char} {neg : Bool} : SignD sg neg → WordCI ['i', 'n', 'f'] w → FloatD (sg ++ w) (.inf neg)
+inductive FloatDV (val : List Char → Nat) : List Char → FVal → Prop
+  | number {sg body : List Char} {neg : Bool} {m : Nat} {e : Int} : SignD sg neg → NumberDV val body m e →
+      FloatDV val (sg ++ body) (.dec neg m e)
+  | inf {sg w : List Char} {neg : Bool} : SignD sg neg → WordCI ['i', 'n', 'f'] w → FloatDV val (sg ++ w) (.inf neg)
   | infinity {sg w : List Char} {neg : Bool} : SignD sg neg → WordCI ['i', 'n', 'f', 'i', 'n', 'i', 't', 'y'] w →
-      FloatD (sg ++ w) (.inf neg)
-  | nan {sg w : List Char} {neg : Bool} : SignD sg neg → WordCI ['n', 'a', 'n'] w → FloatD (sg ++ w) (.nan neg)
+      FloatDV val (sg ++ w) (.inf neg)
+  | nan {sg w : List Char} {neg : Bool} : SignD sg neg → WordCI ['n', 'a', 'n'] w → FloatDV val (sg ++ w) (.nan neg)
+
+/-- the documented grammar of `f64::from_str`: every digit string by its mathematical value -/
+abbrev FloatD := FloatDV digitsVal
+/-- what Rust's `f64::from_str` computes: the exponent digits accumulated with the cap at `0x10000` -/
+abbrev FloatR := FloatDV rustExpVal
+
+/-- a text without its leading sign character, if it has one -/
+def dropSign : List Char → List Char
+  | '+' :: r => r
+  | '-' :: r => r
+  | r => r
+
+/-- the characters after the first `e` / `E` of a text and an optional sign: in a `Number` of the grammar, its exponent
+digits (`Lemmas/FloatGrammar.lean` `expDigits_number`); in `inf` / `infinity` / `nan` (no `e`) nothing -/
+def expDigits : List Char → List Char
+  | [] => []
+  | c :: t => if c = 'e' ∨ c = 'E' then dropSign t else expDigits t
+
+/-- **the exponent digits' value is below 65 536** — the texts on which Rust's reading of the exponent is the
+mathematical one (every text without an exponent; `1e308`, `1e-400`, `1e65535`; not `1e65536`). Decidable on the text. -/
+def ExpSmall (s : List Char) : Prop := digitsVal (expDigits s) < 65536
+
+instance (s : List Char) : Decidable (ExpSmall s) := inferInstanceAs (Decidable (_ < _))
 
 end Sqlgrep.FloatGrammar
